@@ -16,7 +16,9 @@ inductive Out where
   | panic : Out
 deriving DecidableEq
 
-def magic : Bytes := "OxychromaticBlowfishSwatDynamite".toUTF8.data.toList
+/-- "OxychromaticBlowfishSwatDynamite" -/
+def magic : Bytes := [0x4f, 0x78, 0x79, 0x63, 0x68, 0x72, 0x6f, 0x6d, 0x61, 0x74, 0x69, 0x63, 0x42, 0x6c, 0x6f, 0x77,
+  0x66, 0x69, 0x73, 0x68, 0x53, 0x77, 0x61, 0x74, 0x44, 0x79, 0x6e, 0x61, 0x6d, 0x69, 0x74, 0x65]
 
 def iter {α : Type} (f : α → α) : Nat → α → α
   | 0, a => a
@@ -36,7 +38,8 @@ def bcryptHash (shapass shasalt : Bytes) : Option Bytes :=
     let pa := shapass.toArray
     let sa := shasalt.toArray
     let c := iter (fun c => Blowfish.expandKey pa (Blowfish.expandKey sa c)) 64 c
-    some (swap4 ((chunks 8 magic).map (iter (Blowfish.encrypt c) 64)).flatten)
+    let e := iter (Blowfish.encrypt c) 64
+    some (swap4 (e (magic.take 8) ++ e ((magic.drop 8).take 8) ++ e ((magic.drop 16).take 8) ++ e (magic.drop 24)))
 
 /-- `for i := 2; i <= rounds; i++ { tmp = bcryptHash(sha512(tmp)); out ^= tmp }` with `n = rounds - 1` -/
 def foldRounds (shapass : Bytes) : Nat → Bytes → Bytes → Option Bytes
